@@ -120,12 +120,18 @@ func Run(n, par int, extraEnv []string, decode func(i int, raw []byte) error) {
 	}
 }
 
-// tailBuf keeps the first 1500 bytes written to it.
+// tailBuf keeps the first 1500 bytes written to it (VERIF_SHARD_STDERR=<n>: the first n).
 type tailBuf struct{ b []byte }
 
+var tailMax = func() int {
+	n := 1500
+	fmt.Sscanf(os.Getenv("VERIF_SHARD_STDERR"), "%d", &n)
+	return n
+}()
+
 func (t *tailBuf) Write(p []byte) (int, error) {
-	if len(t.b) < 1500 {
-		n := 1500 - len(t.b)
+	if len(t.b) < tailMax {
+		n := tailMax - len(t.b)
 		if n > len(p) {
 			n = len(p)
 		}
